@@ -6,9 +6,12 @@
   invisible wrapper.
 
   Text level (through the character-level lexer `lexStrict` of C01 and the lexer bridge of C11,
-  `Lemmas/FormatLex*.lean`; new lemmas in `Lemmas/FormatLexPretty.lean`, `Lemmas/FormatLexPrettyLayout.lean`):
-  `mini_output_fixed_point_text` (mini² = mini), `pretty_text_stable` (pretty³ = pretty²), `pretty_text_layout` (the
-  layout law read off the output text), for every strict single-root document.
+  `Lemmas/FormatLex*.lean`; lemmas in `Lemmas/FormatLexPretty.lean`, `FormatLexPrettyLayout.lean`,
+  `FormatLexPrettyMulti.lean`, `FormatLexMiniText.lean`):
+  `mini_output_fixed_point_text` (mini² = mini), `pretty_text_stable` (pretty³ = pretty²), `pretty_text_layout…` (the
+  layout law read off the output text; any token sequence whose tree is strict, unclosed tails included),
+  `mini_output_text_runs` (the mini clause on the data tokens / text runs of the lexed output), for strict single-root
+  documents, and their `…_multi` counterparts for multi-root documents.
 -/
 import AHP.Lemmas.Format
 import AHP.Lemmas.FormatLexPrettyLayout
